@@ -12,6 +12,8 @@ Behaviours (all legal outputs of a U[0,1) generator):
   spike           zeros with a single 1-eps entry (position from the call counter)
   ramp            monotone ramp in [0, 1)
   half            every draw 0.5
+  tiny            every draw 2**-53 (smallest non-zero output of the production generator)
+  extremes        each draw one of 0, 2**-53, 0.5, 1-2**-53 (seeded choice)
 """
 
 from __future__ import annotations
@@ -19,7 +21,7 @@ from __future__ import annotations
 import numpy as np
 
 ONE_MINUS = 1.0 - 2.0**-53
-BEHAVIOURS = ("uniform", "zeros", "ones", "alt", "spike", "ramp", "half")
+BEHAVIOURS = ("uniform", "zeros", "ones", "alt", "spike", "ramp", "half", "tiny", "extremes")
 
 
 class RngSeam:
@@ -77,6 +79,10 @@ class RngSeam:
             out[(self.seed + self._k) % n] = ONE_MINUS
         elif b == "ramp":
             out = np.arange(n, dtype=float) / n
+        elif b == "tiny":
+            out = np.full(n, 2.0**-53)  # the smallest non-zero value the production generator can return
+        elif b == "extremes":
+            out = np.array([0.0, 2.0**-53, 0.5, ONE_MINUS])[self._rs.randint(0, 4, size=n)]
         else:  # pragma: no cover
             raise ValueError(b)
         self.calls += 1
